@@ -39,7 +39,7 @@ USERS_A = {None: None, "alice": "secret", "bob": None}
 USERS_B = {"alice": "secret", "bob": None}
 
 REST_ARGS = ["0", "5", "17", "300", "100000", "-1", "+3", " 4", "abc", "", "²", "٣", "1e3", "0x10", "４",
-             "99999999999999999999", "4 5", "①"]
+             "99999999999999999999", "4 5", "①", "9" * 4300, "1" + "0" * 5000]
 UNKNOWN = ["NOOP", "FEAT", "STAT", "HELP", "SITE CHMOD 777 x", "XPWD", "", "ACCT x", "PORT 127,0,0,1,4,1", "OPTS UTF8 ON",
            "SIZE /top.txt", "MDTM /top.txt", "ALLO 10", "MODE S", "STRU F"]
 
@@ -400,6 +400,8 @@ def gen_cases(tier, seed):
         [A, E, ("REST", "9", None, "rest:ascii"), ("STOR", "/a/brand-new", "before", "xfer")],
         [A, ("REST", "²", None, "rest:nonascii-digit"), ("PWD", "", None, "plain")],
         [A, ("REST", "①", None, "rest:nonascii-digit"), ("PWD", "", None, "plain")],
+        [A, ("REST", "7" * 5000, None, "rest:astronomic"), ("PWD", "", None, "plain")],
+        [A, E, ("REST", "1" + "0" * 4400, None, "rest:astronomic"), ("NOOP", "", None, "unknown"), ("RETR", "/top.txt", "before", "xfer")],
         [A, ("EPSV", "1", None, "epsv:arg"), E, ("RETR", "/top.txt", "before", "xfer")],
         [A, ("RNFR", "/top.txt", None, "path"), ("RNTO", "/b", None, "path"), ("RNTO", "/b/moved", None, "path"),
          ("RNTO", "/b/again", None, "path")],
